@@ -17,7 +17,7 @@ def cli():
 
 def _ast_to_dict(doc):
     """Convert AST Document to dictionary for JSON/YAML export."""
-    from octave_mcp.core.ast_nodes import Assignment, Block, HolographicValue, InlineMap, ListValue
+    from octave_mcp.core.ast_nodes import Assignment, Block, HolographicValue, InlineMap, ListValue, Section
 
     def convert_value(value):
         if isinstance(value, HolographicValue):
@@ -35,7 +35,7 @@ def _ast_to_dict(doc):
         for child in block.children:
             if isinstance(child, Assignment):
                 result[child.key] = convert_value(child.value)
-            elif isinstance(child, Block):
+            elif isinstance(child, Block | Section):
                 result[child.key] = convert_block(child)
         return result
 
@@ -45,7 +45,7 @@ def _ast_to_dict(doc):
     for section in doc.sections:
         if isinstance(section, Assignment):
             result[section.key] = convert_value(section.value)
-        elif isinstance(section, Block):
+        elif isinstance(section, Block | Section):
             result[section.key] = convert_block(section)
     return result
 
@@ -60,12 +60,12 @@ def _block_to_markdown(block, lines, level=3):
         lines: Output lines list (mutated)
         level: Heading level
     """
-    from octave_mcp.core.ast_nodes import Assignment, Block
+    from octave_mcp.core.ast_nodes import Assignment, Block, Section
 
     for child in block.children:
         if isinstance(child, Assignment):
             lines.append(f"- **{child.key}**: {child.value}")
-        elif isinstance(child, Block):
+        elif isinstance(child, Block | Section):
             lines.append(f"{'#' * level} {child.key}")
             lines.append("")
             _block_to_markdown(child, lines, level + 1)
@@ -77,7 +77,7 @@ def _ast_to_markdown(doc):
     CRS-FIX #2: Complete implementation that processes nested block children,
     matching the MCP octave_eject tool behavior.
     """
-    from octave_mcp.core.ast_nodes import Assignment, Block
+    from octave_mcp.core.ast_nodes import Assignment, Block, Section
 
     lines = [f"# {doc.name}", ""]
 
@@ -92,7 +92,7 @@ def _ast_to_markdown(doc):
         if isinstance(section, Assignment):
             lines.append(f"**{section.key}**: {section.value}")
             lines.append("")
-        elif isinstance(section, Block):
+        elif isinstance(section, Block | Section):
             lines.append(f"## {section.key}")
             lines.append("")
             _block_to_markdown(section, lines, level=3)
